@@ -29,6 +29,9 @@ type vhCoordinator struct {
 	syncResp     syncGroupResponseV0
 	syncErr      error
 	parts        []Partition
+	closes       int
+	finds        int
+	findOutcome  func(call int) (int16, error) // error code / transport error of the n-th findCoordinator call
 	filterTopics bool
 	partsErr     error
 	joins        int
@@ -38,9 +41,20 @@ type vhCoordinator struct {
 
 var vhErrCoordinator = errors.New("vh: coordinator failure")
 
-func (c *vhCoordinator) Close() error { c.closed = true; c.calls = append(c.calls, "close"); return nil }
+func (c *vhCoordinator) Close() error {
+	c.closed = true
+	c.closes++
+	c.calls = append(c.calls, "close")
+	return nil
+}
 func (c *vhCoordinator) findCoordinator(findCoordinatorRequestV0) (findCoordinatorResponseV0, error) {
 	c.calls = append(c.calls, "findCoordinator")
+	c.finds++
+	if c.findOutcome != nil {
+		if code, err := c.findOutcome(c.finds); code != 0 || err != nil {
+			return findCoordinatorResponseV0{ErrorCode: code}, err
+		}
+	}
 	return findCoordinatorResponseV0{Coordinator: findCoordinatorResponseCoordinatorV0{NodeID: 1, Host: "h", Port: 9092}}, nil
 }
 func (c *vhCoordinator) joinGroup(r joinGroupRequest) (joinGroupResponse, error) {
